@@ -1072,7 +1072,19 @@ fn run_incarnation(base: &Base, g: &mut Ghost, blobs: &BTreeMap<u16, Vec<u8>>, o
                         }
                         Op::Subscribe(_) => {
                             let tag = g.borrow().next_sub;
-                            match subscribe(&ctl, sid, tag).await {
+                            let r = subscribe(&ctl, sid, tag).await;
+                            if r.is_ok() {
+                                // the device commits (and persists) the subscription after it has sent
+                                // the SubscribeResponse
+                                for _ in 0..2000 {
+                                    if subs_fn().iter().any(|x| x.3 == tag) {
+                                        break;
+                                    }
+                                    embassy_time::Timer::after(embassy_time::Duration::from_millis(1)).await;
+                                }
+                                settle(&dev, &ctl).await;
+                            }
+                            match r {
                                 Ok(()) => {
                                     g.borrow_mut().next_sub += 1;
                                     sub_inc = Some(sess_inc);
@@ -1155,8 +1167,15 @@ fn run_incarnation(base: &Base, g: &mut Ghost, blobs: &BTreeMap<u16, Vec<u8>>, o
                     }
                     Op::Establish(r) => {
                         let full = session_ids(&dev).len() >= MAX_SESSIONS;
+                        // A Sigma1 that the device refuses keeps its responder waiting for a Sigma3 on
+                        // that exchange until the receive timeout (~40 s), and no other handshake is
+                        // answered meanwhile (see design.d/C07.md): outside the wire probes a handshake
+                        // is only sent when the device has a fabric under that root.
+                        let known = dev.with_state(|state| state.fabrics.iter().any(|f| f.root_ca() == base.roots[*r].cert.as_slice()));
                         if full {
                             "nospace".to_string()
+                        } else if !known && !wire {
+                            "nofabric".to_string()
                         } else {
                             let before = session_ids(&ctl);
                             let attempt = {
@@ -1193,8 +1212,21 @@ fn run_incarnation(base: &Base, g: &mut Ghost, blobs: &BTreeMap<u16, Vec<u8>>, o
                     Op::Resume(k) => {
                         let rec = g.borrow().rec_by_name(*k).cloned();
                         let full = session_ids(&dev).len() >= MAX_SESSIONS;
+                        // (same remark as for `E`: outside the wire probes a resumption is only sent when
+                        // the device holds the record and the record's fabric index is in the table)
+                        let acceptable = rec.as_ref().map(|rec| {
+                            dev.with_state(|state| {
+                                state
+                                    .resumption
+                                    .iter()
+                                    .find(|r| r.resumption_id.reference().access()[..] == rec.rid[..])
+                                    .map(|r| state.fabrics.get(r.fab_idx).is_some())
+                                    .unwrap_or(false)
+                            })
+                        });
                         match rec {
                             None => "refused".to_string(),
+                            Some(_) if acceptable != Some(true) && !wire => "refused".to_string(),
                             Some(_) if full => "nospace".to_string(),
                             Some(rec) => {
                                 // the peer that holds this record: its copy of the resumption state
@@ -1434,8 +1466,8 @@ fn generate(tier: &str, seed: u64) -> Vec<String> {
     // wire probes: the old session / record is really used on the wire after the fabric is gone
     for ops in [
         "A1,N1:2,E2,Q4:5,T,Q4:6,P,A5,N5:3,Q4:7,S1",
-        "E1,Q4:5,R2:2,Q4:6,S1,A1,N1:2,Q4:7,S1",
-        "E1,Q4:5,R4:2,Q4:6,S1,A1,N1:2,Q4:7,S1",
+        "E1,Q4:5,R2:2,Q4:6,A1,N1:2,Q4:7,S1",
+        "E1,Q4:5,R4:2,Q4:6,A1,N1:2,Q4:7,S1",
         "A1,N1:2,E2,F,Z4,Q4:6,X,S1",
     ] {
         cases.push(format!("W {} 21 {}", nid(), ops));
